@@ -289,10 +289,12 @@ class Gen:
                     kb = "int"
                     if ka in ("int", "float"): continue
                 rk = self.res_kind(op, ka, kb)
-                if op == "rshift" and ka == "lc" and kb == "int":
+                if op == "rshift" and ka in ("lc", "any") and kb == "int":
                     kv = self.ints.get(b)
                     if kv is None: continue
-                    if kv >= cfg["n"]: rk = "int"      # from_bits([]) is the plain int 0
+                    if kv >= cfg["n"]:
+                        if ka == "any": continue       # would be the plain int 0 if the operand turns out to be a LinComb
+                        rk = "int"                     # from_bits([]) is the plain int 0
                 out.append(["bin", self.new(rk), op, a, b])
                 if rk == "int" and op == "rshift": self.ints[self.nreg - 1] = 0
             elif choice == "un":
@@ -344,6 +346,7 @@ class Gen:
                     if cv is None: continue     # an int condition of unknown value could select a plain int branch
                     rk = self.kind(t_) if cv == 1 else self.kind(f_) if cv == 0 else "any"
                 if rk == "int": continue        # keep plain ints out of later operators
+                if self.kind(t_) == "int" and self.kind(f_) == "int": continue   # `truev is falsev` holds for equal small ints: a plain int result
                 out.append(["ite", self.new(rk), cnd, t_, f_])
             elif choice == "guarded" and depth < pf.get("max_guard_depth", 2):
                 g = self.pick(["lc"])
